@@ -135,6 +135,17 @@ func init() {
 				om.Replace(fmt.Sprint("k", i), fmt.Sprint("k", i+1), "renamed") // leaves tombstones
 			}
 			om.Delete("k4")
+			if r%2 == 1 {
+				// a map in which at least half of the slots are tombstones: only renames onto existing keys leave a map
+				// in that state (Delete would compact it), and no read path may tidy it up
+				om = ordered.NewMap[string, any](0)
+				for i := 0; i < 12; i++ {
+					om.Set(fmt.Sprint("k", i), i)
+				}
+				for i := 0; i < 12; i += 2 {
+					om.Replace(fmt.Sprint("k", i), fmt.Sprint("k", i+1), "renamed")
+				}
+			}
 			om2 := ordered.NewMap[string, any](0)
 			om.Range(func(k string, v any) error { om2.Set(k, v); return nil })
 			g := newDocgen(rng, false)
